@@ -209,3 +209,72 @@ def check_config_aliasing(prog, res, fns, rule='S13'):
                     name, src, norm_text(bad)[:50] if bad is not None else
                     ''))
   return n
+
+
+# ---------------------------------------------------------------------------
+# X9 - an iteration that does not look at its element
+def check_unused_iteration(prog, res, fns, rule='X9'):
+  """`any(check(model.things) for item in model.items)` / `for item in items:
+  check(model.things)`: what is evaluated for every element does not read the
+  element.  The per-item test has become the same test repeated len(items)
+  times - usually the whole-object attribute was passed where the item's
+  attribute was meant.  Decided per comprehension / generator / for loop:
+  at least one bound name must be read in the element expression, a filter
+  or the body.  Exempt: targets named `_` / `unused*`, loops over `range(..)`
+  (repeat n times) and comprehensions that only build n copies (`[0.0 for _
+  in ...]`, `[[] for i in range(n)]`)."""
+  n = 0
+  for fn in fns:
+    for node in ast.walk(fn.node):
+      if isinstance(node, (ast.ListComp, ast.SetComp, ast.GeneratorExp,
+                           ast.DictComp)):
+        gens = node.generators
+        parts = [node.key, node.value] if isinstance(node, ast.DictComp) \
+            else [node.elt]
+        for gi, g in enumerate(gens):
+          names = {x.id for x in ast.walk(g.target) if isinstance(x, ast.Name)}
+          if not names or all(x == '_' or x.startswith('unused')
+                              for x in names):
+            continue
+          if isinstance(g.iter, ast.Call) and dotted(g.iter.func) == 'range':
+            continue
+          readers = parts + list(g.ifs) + [h.iter for h in gens[gi + 1:]] + [
+              t for h in gens[gi + 1:] for t in h.ifs]
+          used = any(isinstance(x, ast.Name) and x.id in names
+                     for r in readers for x in ast.walk(r))
+          # n copies of a constant / fresh empty container
+          trivial = all(isinstance(p_, ast.Constant) or (
+              isinstance(p_, (ast.List, ast.Dict, ast.Tuple)) and not getattr(
+                  p_, 'elts', getattr(p_, 'keys', None))) for p_ in parts)
+          if trivial:
+            continue
+          n += 1
+          key = '%s|%s in %s' % (fn.qualname, norm_text(g.target),
+                                 norm_text(g.iter)[:40])
+          res.check(used, rule, key, fn.loc(node),
+                    'the element is read by what is evaluated for it',
+                    '`%s` is evaluated for every `%s` in `%s` but does not '
+                    'read it: the per-element test is one test repeated' % (
+                        norm_text(parts[0])[:60], norm_text(g.target),
+                        norm_text(g.iter)[:40]))
+      elif isinstance(node, ast.For):
+        names = {x.id for x in ast.walk(node.target)
+                 if isinstance(x, ast.Name)}
+        if not names or all(x == '_' or x.startswith('unused')
+                            for x in names):
+          continue
+        if isinstance(node.iter, ast.Call) and dotted(node.iter.func) in (
+            'range', 'six.moves.range', 'xrange'):
+          continue
+        used = any(isinstance(x, ast.Name) and x.id in names and isinstance(
+            x.ctx, ast.Load) for st in node.body for x in ast.walk(st))
+        n += 1
+        key = '%s|for %s in %s' % (fn.qualname, norm_text(node.target),
+                                   norm_text(node.iter)[:40])
+        res.check(used, rule, key, fn.loc(node),
+                  'the loop body reads its element',
+                  'the body of `for %s in %s` never reads `%s`: every '
+                  'iteration does the same thing' % (
+                      norm_text(node.target), norm_text(node.iter)[:40],
+                      norm_text(node.target)))
+  return n
